@@ -5,6 +5,7 @@ import gc
 from twisted.internet import defer
 from twisted.python.failure import Failure
 
+import testtools
 from testtools import matchers as M
 from testtools.twistedsupport import SynchronousDeferredRunTest, failed, has_no_result, succeeded
 from testtools.twistedsupport._deferred import DeferredNotFired, extract_result
@@ -38,8 +39,8 @@ class ErrA(Exception):
     pass
 
 
-class ErrB(Exception):
-    pass
+class ErrB(IndexError):
+    """(a LookupError from the code under test - not something testtools' own bookkeeping raised)"""
 
 
 def _transform(x):
@@ -486,6 +487,41 @@ def sync_execute(nc, em, chooser):
     return ctx, (log1, how1, x1), (log2, how2, x2)
 
 
+def shared_deferred_scenarios(res):
+    """One canned, already-fired Deferred handed out by two tests run one after the other (each run
+    with its own runner): the first run consumes a failure, after which the Deferred is one that
+    has fired with a value - and the second test is one that returned."""
+    from twisted.internet import defer
+
+    for label, make, want in (
+        ("failed", lambda: defer.fail(ErrA("canned")), (["startTest", "addError", "stopTest"], ["startTest", "addSuccess", "stopTest"])),
+        ("succeeded", lambda: defer.succeed("canned"), (["startTest", "addSuccess", "stopTest"], ["startTest", "addSuccess", "stopTest"])),
+    ):
+        canned = make()
+
+        class Shared(testtools.TestCase):
+            run_tests_with = SynchronousDeferredRunTest
+
+            def test_one(self):
+                return canned
+
+            def test_two(self):
+                return canned
+
+        got = []
+        for name in ("test_one", "test_two"):
+            r = rec.Ext()
+            try:
+                Shared(name).run(r)
+            except BaseException as e:
+                r.log.append(("run() raised %s" % type(e).__name__,))
+            got.append([e[0] for e in r.log])
+        res.evaluations += 2
+        res.traces_validated += 1
+        if tuple(got) != want:
+            res.violation("C20/sync-runtest-shared-deferred", "two tests returning one already-%s Deferred were reported as %r, expected %r" % (label, got, list(want)), {"shared": label})
+
+
 def shards(tier):
     return [("bfs", i) for i in range(len(OPS))] + [("sync", nc, em) for nc in (0, 1, 2) for em in (False, True)]
 
@@ -499,6 +535,8 @@ def run_shard(shard, tier, seed):
         return res
     _, nc, em = shard
     bound = 2 if tier == "quick" else 3
+    if (nc, em) == (0, False):
+        shared_deferred_scenarios(res)
 
     def check(ch, o):
         ctx, a, b = o.v
@@ -540,6 +578,10 @@ def replay(data):
         return ok and not p, "\n".join(out)
     from vt.explore.chooser import Chooser
 
+    if "shared" in data:
+        res = ShardResult()
+        shared_deferred_scenarios(res)
+        return not res.violations, "\n".join(str(v) for v in res.violations)
     nc, em = data["sync"]
     ctx, a, b = sync_execute(nc, em, Chooser(data["choices"]))
     return a == b, "plain=%r\nsync=%r" % (a, b)
